@@ -73,8 +73,8 @@ class JsonResource(Resource):
         dict_list = []
         for root in self.contents:
             dict_list.append(self.to_dict(root))
-        if len(dict_list) <= 1:
-            dict_list = dict_list[0]
+        if len(dict_list) == 1:
+            dict_list = dict_list[0]  # (no root at all is an empty list)
 
         encoder = self.options.get(JsonOptions.ENCODER)
         data = json.dumps(dict_list, indent=self.indent, cls=encoder) \
